@@ -243,7 +243,7 @@ func (store *fileStore) setSession() error {
 	if err != nil {
 		return fmt.Errorf("unable to marshal session time to file: %s: %s", store.sessionFname, err.Error())
 	}
-	if err := verifFail("session:write"); err != nil {
+	if err := verifFail("session:write:" + store.sessionFname); err != nil {
 		return fmt.Errorf("unable to write to file: %s: %s", store.sessionFname, err.Error())
 	}
 	if _, err := store.sessionFile.Write(data); err != nil {
@@ -265,7 +265,7 @@ func (store *fileStore) setSeqNum(f *os.File, seqNum int) error {
 	if _, err := f.Seek(0, io.SeekStart); err != nil {
 		return fmt.Errorf("unable to rewind file: %s: %s", f.Name(), err.Error())
 	}
-	if err := verifFail("seqnum:write"); err != nil {
+	if err := verifFail("seqnum:write:" + f.Name()); err != nil {
 		return fmt.Errorf("unable to write to file: %s: %s", f.Name(), err.Error())
 	}
 	if _, err := fmt.Fprintf(f, "%019d", seqNum); err != nil {
@@ -342,7 +342,7 @@ func (store *fileStore) SaveMessage(seqNum int, msg []byte) error {
 	if _, err := store.headerFile.Seek(0, io.SeekEnd); err != nil {
 		return fmt.Errorf("unable to seek to end of file: %s: %s", store.headerFname, err.Error())
 	}
-	if err := verifFail("save:header-write"); err != nil {
+	if err := verifFail("save:header-write:" + store.headerFname); err != nil {
 		return fmt.Errorf("unable to write to file: %s: %s", store.headerFname, err.Error())
 	}
 	if _, err := fmt.Fprintf(store.headerFile, "%d,%d,%d\n", seqNum, offset, len(msg)); err != nil {
@@ -350,7 +350,7 @@ func (store *fileStore) SaveMessage(seqNum int, msg []byte) error {
 	}
 	verifPoint("save:header-written")
 
-	if err := verifFail("save:body-write"); err != nil {
+	if err := verifFail("save:body-write:" + store.bodyFname); err != nil {
 		return fmt.Errorf("unable to write to file: %s: %s", store.bodyFname, err.Error())
 	}
 	if _, err := store.bodyFile.Write(msg); err != nil {
